@@ -34,7 +34,8 @@ type CaseC05 struct {
 
 func init() { register("C05", checkC05) }
 
-var escAlphabet = []string{"&", "<", ">", "\"", "'", "&amp;", "&lt;", "&quot;", "&#x41;", "&#65;", "]]>", "<![CDATA[", "a", "b", " ", "\t", "\n", "é", "&amp;amp;", "--", "<!--", "?>", "<?", "&", "<"}
+var escAlphabet = []string{"&", "<", ">", "\"", "'", "&amp;", "&lt;", "&quot;", "&#x41;", "&#65;", "]]>", "<![CDATA[", "a", "b", " ", "\t", "\n", "é", "&amp;amp;", "--", "<!--", "?>", "<?", "&", "<",
+	"\U0001F600", "\U00010000", "\U00010FFF", "\U00011000", "\U0010FFFD", "\u2028", "\ufffd", "\ufeff", "e\u0301", "&amp;lt;", "&amp;amp;lt;"}
 
 func genEscStr(t *rapid.T, label string) string {
 	n := rapid.IntRange(1, 6).Draw(t, label+"n")
@@ -45,7 +46,7 @@ func genEscStr(t *rapid.T, label string) string {
 	return sb.String()
 }
 
-var mildAlphabet = []string{"a", "b", " ", "&amp;", "&lt;", "&gt;", "&quot;", "&#x41;", "&#65;", "é", "x", "]]", "--", "1"}
+var mildAlphabet = []string{"a", "b", " ", "&amp;", "&lt;", "&gt;", "&quot;", "&#x41;", "&#65;", "é", "x", "]]", "--", "1", "\U0001F600", "\U00011000", "\U0010FFFD", "\u2028", "&amp;lt;"}
 
 func genMildStr(t *rapid.T, label string) string {
 	n := rapid.IntRange(1, 5).Draw(t, label+"n")
